@@ -341,7 +341,63 @@ def thresholds(repo, rep):
                 rep.ok("R-C19-4", f"{p.file}:{n.lineno} np_track_partitions", f"dfp_sea_max[{idx}], columns {low}:..", "threshold of the interval's start")
 
 
+def count_and_time_step(repo, rep):
+    """R-C19-8: the reported count of a site is the tracker's own second output for THAT site (a reduction of the identifiers without the site
+    dimension mixes sites).  R-C19-9: the time step entering the thresholds is a timedelta divided by a timedelta unit (unit-safe), not the raw
+    tick count of the timedelta scaled by an assumed resolution."""
+    rep.rule("R-C19-8", "track_partitions stores the kernel's per-site count output as npart_id (no reduction across sites)")
+    fi = repo.func(f"{MOD}.track_partitions")
+    from ..astutil import resolve
+    second = None
+    for a in ast.walk(fi.node):
+        if isinstance(a, ast.Assign) and isinstance(a.targets[0], (ast.Tuple, ast.List)) and len(a.targets[0].elts) == 2 and isinstance(a.value, ast.Call) \
+                and call_name(a.value).split(".")[-1] == "apply_ufunc":
+            second = a.targets[0].elts[1]
+    if second is None:
+        raise AnalysisError("track_partitions: (ids, count) = apply_ufunc(...) not found")
+    store = [a for a in ast.walk(fi.node) if isinstance(a, ast.Assign) and isinstance(a.targets[0], ast.Subscript)
+             and repo.const(fi.module, a.targets[0].slice) == "npart_id"]
+    if not store:
+        store = [a for a in ast.walk(fi.node) if isinstance(a, ast.Assign) and "npart_id" in unparse(a.targets[0])
+                 and not isinstance(a.targets[0], (ast.Tuple, ast.List)) and not isinstance(a.targets[0], ast.Attribute)]
+    if not store:
+        raise AnalysisError("track_partitions: store of npart_id not found")
+    v = store[0].value
+    if isinstance(v, ast.Name):
+        v = resolve(fi.node, v, before=store[0].lineno) or v
+    src_names = {x.id for x in ast.walk(store[0].value) if isinstance(x, ast.Name)}
+    if isinstance(second, ast.Name) and second.id in src_names and not any(
+            isinstance(c, ast.Call) and isinstance(c.func, ast.Attribute) and c.func.attr in ("max", "min", "sum", "count", "mean") for c in ast.walk(store[0].value)):
+        rep.ok("R-C19-8", f"{fi.file}:{store[0].lineno} track_partitions", unparse(store[0])[:80], "the kernel's own per-site count")
+    else:
+        rep.fail("R-C19-8", fi.file, store[0].lineno, fi.qualname, unparse(store[0])[:100],
+                 "the reported count is not the tracker's per-site output: derived from the identifiers by a reduction that also collapses the site "
+                 "dimension, every site reports the count of the busiest site (and -998 when nothing was tracked anywhere), so identifiers are no longer "
+                 "exactly 0..N-1 per site and sites are not independent")
+    rep.rule("R-C19-9", "the time step of the tracker is obtained by dividing a timedelta by a timedelta unit, never from the raw tick count")
+    k = repo.func(f"{MOD}.np_track_partitions")
+    bad = None
+    good = None
+    for c in ast.walk(k.node):
+        if isinstance(c, ast.Call) and isinstance(c.func, ast.Attribute) and c.func.attr in ("astype", "view") and c.args and "int" in unparse(c.args[0]) \
+                and any(isinstance(x, ast.Call) and call_name(x).split(".")[-1] == "diff" for x in ast.walk(c.func.value)):
+            bad = c
+        if isinstance(c, ast.BinOp) and isinstance(c.op, ast.Div) and any(isinstance(x, ast.Call) and call_name(x).split(".")[-1] == "timedelta64" for x in ast.walk(c.right)) \
+                and any(isinstance(x, ast.Call) and call_name(x).split(".")[-1] == "diff" for x in ast.walk(c.left)):
+            good = c
+    if bad is not None:
+        rep.fail("R-C19-9", k.file, bad.lineno, k.qualname, unparse(bad)[:100],
+                 "the time step is read off the integer tick count of a timedelta and scaled by an assumed resolution: for time stamps that are not "
+                 "datetime64[ns] the step is off by the ratio of the resolutions, both frequency thresholds collapse and every system gets a new "
+                 "identifier at every step")
+    elif good is not None:
+        rep.ok("R-C19-9", f"{k.file}:{good.lineno} np_track_partitions", unparse(good)[:80], "timedelta / timedelta64(1, unit): independent of the stored resolution")
+    else:
+        raise AnalysisError("np_track_partitions: computation of the time step not found")
+
+
 def run(repo, rep, tier):
+    count_and_time_step(repo, rep)
     rep.rule("R-C19-7", "every parameter of the functions behind this property is read (partition tracking): none is accepted and then ignored, and no control parameter (cutoff, limit, tolerance, window, count, switch) is replaced by another value before use (coercion and default filling aside)")
     from .shared import unused_parameters
     unused_parameters(repo, rep, "R-C19-7", ("wavespectra.partition.tracking", "wavespectra.partition.partition.Partition.ptm1_track"), "partition tracking")
